@@ -149,6 +149,22 @@ func (fs *FS) MountPoints() []Point {
 
 // Rename implements hackpadfs.RenameFS
 func (fs *FS) Rename(oldname, newname string) error {
+	err := fs.rename(oldname, newname)
+	if err == nil {
+		return nil
+	}
+	// report every failure as a LinkError in the caller's namespace, never with paths of a mounted file system
+	var cause error = err
+	switch e := err.(type) {
+	case *hackpadfs.LinkError:
+		cause = e.Err
+	case *hackpadfs.PathError:
+		cause = e.Err
+	}
+	return &hackpadfs.LinkError{Op: "rename", Old: oldname, New: newname, Err: cause}
+}
+
+func (fs *FS) rename(oldname, newname string) error {
 	if !hackpadfs.ValidPath(oldname) || !hackpadfs.ValidPath(newname) {
 		return &hackpadfs.LinkError{Op: "rename", Old: oldname, New: newname, Err: hackpadfs.ErrInvalid}
 	}
